@@ -257,6 +257,54 @@ func (d *detemper) list(list []ast.Stmt) ([]ast.Stmt, bool) {
 		list = append(list[:i:i], append(parts, list[i+1:]...)...)
 		return list, true
 	}
+	// `if v := E; <cond using v once>` with v not used in the branches: the init only names the condition
+	for i := 0; i < len(list); i++ {
+		ifs, ok := list[i].(*ast.IfStmt)
+		for ok && ifs != nil {
+			if ifs.Init != nil {
+				if v, e := d.tempDef(ifs.Init); v != nil && len(d.uses[v]) == 1 && !d.captured[v] {
+					use := d.uses[v][0]
+					inCond := false
+					ast.Inspect(ifs.Cond, func(n ast.Node) bool {
+						if n == ast.Node(use) {
+							inCond = true
+						}
+						return !inCond
+					})
+					// the use must be evaluated first and unconditionally: the condition is v, !v, or v op …
+					first := ast.Unparen(ifs.Cond)
+					for {
+						if u, isNot := first.(*ast.UnaryExpr); isNot && u.Op == token.NOT {
+							first = ast.Unparen(u.X)
+							continue
+						}
+						if b, isBin := first.(*ast.BinaryExpr); isBin {
+							first = ast.Unparen(b.X)
+							continue
+						}
+						break
+					}
+					if inCond && first == ast.Expr(use) {
+						collapsePos(e, use.Pos())
+						var repl ast.Expr = e
+						switch e.(type) {
+						case *ast.Ident, *ast.SelectorExpr, *ast.CallExpr, *ast.IndexExpr, *ast.ParenExpr:
+						default:
+							repl = &ast.ParenExpr{Lparen: use.Pos(), X: e, Rparen: use.Pos()}
+							if tv, has := d.info.Types[e]; has {
+								d.info.Types[repl] = tv
+							}
+						}
+						if d.replace(ifs, use, repl) {
+							ifs.Init = nil
+							return list, true
+						}
+					}
+				}
+			}
+			ifs, ok = ifs.Else.(*ast.IfStmt)
+		}
+	}
 	for i := 0; i < len(list); i++ {
 		v, e := d.tempDef(list[i])
 		if v == nil {
